@@ -45,7 +45,7 @@ ASSUMPTIONS = ["clients are cooperative: a switch happens between two public cal
                "single-threaded caller can interleave", "each data client owns a distinct sample's stream (two clients on the very same "
                "stream object would share its cursor by definition)"]
 EXPECTED_PROBES = ["reseek_after_switch", "switch_on_sector_boundary", "lazy_ls_between_blocks", "foreign_seek_to_expected_position",
-                   "switch_after_seek", "stereo_pair_client", "reversed_stream_client", "mdf_container", "cdda", "roland", "akai", "same_sample_second_view", "sweep_interleavings"]
+                   "switch_after_seek", "stereo_pair_client", "reversed_stream_client", "mdf_container", "cdda", "roland", "akai", "same_sample_second_view", "sweep_interleavings", "stream_reopened"]
 SHRINK = {"max_attempts": 150, "max_seconds": 120.0, "simple_values": {"policy": ["contiguous"], "block": [4096]}}
 
 
@@ -172,7 +172,10 @@ def gen(rng: random.Random, tier: str, index: int) -> dict:
     nd = min(len(targets), weighted(rng, [(1, 1), (2, 4), (3, 3), (4, 1)]))
     for t in targets[:nd]:
         if rng.random() < 0.6:
-            sc["clients"].append({"k": "T", "target": t["path"], "pair": t.get("pair")})
+            cl = {"k": "T", "target": t["path"], "pair": t.get("pair")}
+            if rng.random() < 0.3:
+                cl["reopen_after"] = rng.randint(1, 3)
+            sc["clients"].append(cl)
         else:
             align = 4 if fmt == "cdda" else 2
             sector = {"akai": 8192, "akai2352": 2048, "roland": 9216, "cdda": 2352}[fmt]
@@ -306,13 +309,22 @@ class Client:
 
 
 class TClient(Client):
-    def __init__(self, cid, spec, transcoder, expected: bytes) -> None:
+    def __init__(self, cid, spec, transcoder, expected: bytes, factory=None) -> None:
         super().__init__(cid, spec)
         self.it = iter(transcoder)
         self.expected = expected
         self.got = 0
+        self.factory = factory
+        self.reopen_after = spec.get("reopen_after")
 
     def step(self, env):
+        if self.reopen_after is not None and self.factory is not None and self.steps == self.reopen_after:
+            # the same sample is asked for again (as a second export of the opened image does): the new stream must
+            # start from the beginning, whatever was read before
+            self.it = iter(self.factory())
+            self.got = 0
+            self.reopen_after = None
+            env["probes"]["stream_reopened"] += 1
         try:
             blk = next(self.it)
         except StopIteration:
@@ -519,7 +531,16 @@ def run(sc: dict) -> RunResult:
                                 res.probes["stereo_pair_client"] += 1
                             dest = StreamEncoding(endianess=Endianess.LITTLE, sample_width=g.data_streams[0].encoding.sample_width,
                                                   num_interleaved_channels=g.num_channels)
-                            clients.append(TClient(cid, spec, make_transcoder(g.data_streams, dest), exp))
+
+                            def factory(path=spec["target"], paired=bool(fmt in ("akai", "akai2352") and _pair_partner(sc, spec["target"])), dest=dest):
+                                _, g1 = _generalized(image, path)
+                                if paired:
+                                    other_path, side = _pair_partner(sc, path)
+                                    _, g2 = _generalized(image, other_path)
+                                    l1, r1 = (g1, g2) if side == "L" else (g2, g1)
+                                    g1 = combine_stereo(l1, r1, "stem")
+                                return make_transcoder(g1.data_streams, dest)
+                            clients.append(TClient(cid, spec, make_transcoder(g.data_streams, dest), exp, factory))
                         else:
                             clients.append(RClient(cid, spec, g.data_streams[0].stream, exp))
                     elif k == "D":
@@ -643,7 +664,7 @@ def _dedupe_streams(clients: List[Client]) -> List[Client]:
             ids = [id(d.stream) for d in dss]
         elif isinstance(c, RClient):
             ids = [id(c.stream)]
-        if any(i in seen for i in ids):
+        if any(i in seen for i in ids) and not c.spec.get("second_view"):
             continue
         seen.update(ids)
         out.append(c)
